@@ -1434,3 +1434,298 @@ def k_placeholder_algebra(E, tier):
         rec.add("Rule::write: a rule whose selectors all match nothing writes nothing at all; otherwise the selectors written are the filtered ones (never the original list)",
                 _structural(not bad, "; ".join(bad[:6]) or "%d paths" % len(paths)))
     return rec
+
+
+# ------------------------------------------------------------------------------------------------ C40
+def k_cli(E, tier):
+    """C40: the command-line tool is a thin loop over the library: for every input, in order,
+    FsContext::for_path(<input>), push_path(<--load-path>) if given, with_format(Format{style: <--style>, precision:
+    <--precision>}), transform, and exactly the bytes returned go to stdout; the first failure ends the run with an
+    error, which main reports as `Error: ...` on stderr with a failure exit code."""
+    import engine as engine_mod
+    import mir as mir_mod
+    cli_dir = os.path.join(os.path.dirname(os.path.dirname(E.src)), "rsass-cli")
+    cache = os.environ.get("VERIF_CACHE", "/var/tmp/kaj-rsass-verif")
+    os.makedirs(os.path.join(cache, "mir"), exist_ok=True)
+    path = os.path.join(cache, "mir", "cli.%d.mir" % os.getpid())
+    try:
+        mir_mod.dump_bin(cli_dir, os.path.join(cache, "mir", "target"), path, "rsass", "rsass-cli-")
+    except RuntimeError as e:
+        raise sym.Unsupported(str(e)[:300])
+    C = engine_mod.Engine(path, os.path.join(cli_dir, "src"), E.log)
+    try:
+        os.unlink(path)
+    except OSError:
+        pass
+    try:
+        rec = _k_cli(C, tier)
+    finally:
+        C.close()
+    # library side of "the input file's directory first, then --load-path": push_path appends to the search list
+    f = E.find(name_re=r"^fsloader::<impl at .*>::push_path$")
+    ctx = E.ctx()
+    loader, pth = sym.Opaque("FsLoader", "loader", ctx), sym.Opaque("&Path", "path", ctx)
+    seen = []
+
+    def m_push(ex, st, c, a, d):
+        seen.append([_full(ex, st, x) for x in a])
+        return sym.Unit()
+
+    conv = sym.Opaque("PathBuf", "path-as-pathbuf", ctx)
+    models = [(r"^Vec::<PathBuf>::push$", m_push), (r"Into<PathBuf>>::into$|From<&Path>>::from$", lambda ex, st, c, a, d: conv if _full(ex, st, a[0]) is pth else None)] + BASE_MODELS
+    ex = sym.Executor(ctx, models=models, feasibility=E.feasibility(ctx), max_paths=20)
+    paths = [p for p in ex.run(f, [sym.Ref("val", loader), pth]) if p.status == "return"]
+    rec.paths += len(paths)
+    fields = _struct_fields(E, "input/fsloader.rs", "FsLoader")
+    good = len(paths) == 1 and len(seen) == 1 and seen[0][0] is loader.children.get(str(fields.index("path"))) and seen[0][1] is conv
+    rec.add("FsLoader::push_path appends the path given to the END of the loader's search list (the input file's directory, put there by for_path, stays first)", _structural(good))
+    return rec
+
+
+def _k_cli(C, tier):
+    f_run = C.find(name_re=r"^<impl at rsass-cli/src/main\.rs:.*>::run$")
+    rec = Rec("rsass-cli: Args::run, From<StyleArg> for Style, main", f_run, C)
+    # Args fields in declaration order; fields behind a cargo feature are not compiled in (no default features)
+    text = open(os.path.join(C.src, "main.rs")).read()
+    m = re.search(r"struct Args\s*\{(.*?)\n\}", text, re.S)
+    if not m:
+        raise sym.Unsupported("struct Args not found")
+    names = []
+    pending_cfg = False
+    for line in m.group(1).split("\n"):
+        t = line.strip()
+        if t.startswith("#[cfg(feature"):
+            pending_cfg = True
+        fm = re.match(r"(?:pub\s+)?([a-z_][a-z0-9_]*)\s*:", t)
+        if fm:
+            if not pending_cfg:
+                names.append(fm.group(1))
+            pending_cfg = False
+    idx = {n: str(i) for i, n in enumerate(names)}
+    for need in ("precision", "style", "load_path", "input"):
+        if need not in idx:
+            raise sym.Unsupported("Args has no field %s" % need)
+
+    K = 2
+    for with_path in (True, False):
+        ctx = C.ctx()
+        args = sym.Opaque("Args", "args", ctx)
+        precision = ctx.fresh_scalar(("bv", 64, False), "precision")
+        style = sym.Opaque("StyleArg", "style-arg", ctx)
+        lp = sym.Opaque("PathBuf", "load-path", ctx)
+        inputs = [sym.Opaque("PathBuf", "input%d" % i, ctx) for i in range(K)]
+        me = sym.Agg("Args", None, {idx["precision"]: precision, idx["style"]: style,
+                                    idx["load_path"]: (sym.Agg("Option", "Some", {"0": lp}, 1) if with_path else sym.Agg("Option", "None", {}, 0)),
+                                    idx["input"]: sym.Opaque("Vec<PathBuf>", "inputs", ctx)})
+        for i in range(len(names)):
+            me.fields.setdefault(str(i), sym.Opaque("?", "args.%s" % names[i], ctx))
+        thestyle = sym.Opaque("Style", "style", ctx)
+
+        def ev(name, fork=None, ret=None):
+            def mm(ex, st, c, a, d):
+                ra = [_full(ex, st, x) for x in a]
+                n = sum(1 for e in st.events if e.callee == "next-some")
+                if fork:
+                    out = []
+                    for kind, val in fork(d, ra, n):
+                        s2 = st.fork()
+                        e = sym.Event(name, a, kind, len(st.pc))
+                        e.rargs, e.ret, e.round = ra, val, n
+                        s2.events.append(e)
+                        out.append((s2, val))
+                    return out
+                e = sym.Event(name, a, None, len(st.pc))
+                e.rargs, e.round = ra, n
+                e.ret = ret(d, ra, n) if ret else sym.Opaque(d or "?", "%s#%d" % (name, n), ctx)
+                st.events.append(e)
+                return e.ret
+            return mm
+
+        def m_next(ex, st, c, a, d):
+            n = sum(1 for e in st.events if e.callee == "next-some")
+            outs = []
+            end = st.fork()
+            end.events.append(sym.Event("next-none", a, None, len(st.pc)))
+            outs.append((end, sym.Agg(d, "None", {}, 0)))
+            if n < K:
+                s2 = st.fork()
+                s2.events.append(sym.Event("next-some", a, None, len(st.pc)))
+                outs.append((s2, sym.Agg(d, "Some", {"0": sym.Ref("val", inputs[n])}, 1)))
+            return outs
+
+        def fk_for_path(d, ra, n):
+            return [("ok", sym.Agg(d, "Ok", {"0": sym.Agg("tuple", None, {"0": sym.Opaque("Context", "context%d" % n, ctx), "1": sym.Opaque("SourceFile", "source%d" % n, ctx)})}, 0)),
+                    ("err", sym.Agg(d, "Err", {"0": sym.Opaque("LoadError", "load-error", ctx)}, 1))]
+
+        def fk_transform(d, ra, n):
+            return [("ok", sym.Agg(d, "Ok", {"0": sym.Opaque("Vec<u8>", "css%d" % n, ctx)}, 0)), ("err", sym.Agg(d, "Err", {"0": sym.Opaque("Error", "compile-error", ctx)}, 1))]
+
+        def fk_write(d, ra, n):
+            return [("ok", sym.Agg(d, "Ok", {"0": sym.Unit()}, 0)), ("err", sym.Agg(d, "Err", {"0": sym.Opaque("io::Error", "write-error", ctx)}, 1))]
+
+        models = [(r"^<StyleArg as Into<rsass::output::Style>>::into$", lambda ex, st, c, a, d: thestyle if _full(ex, st, a[0]) is style else None),
+                  (r" as IntoIterator>::into_iter$", lambda ex, st, c, a, d: a[0]), (r"^<std::slice::Iter<'_, PathBuf> as Iterator>::next$", m_next),
+                  (r" as Deref>::deref$", lambda ex, st, c, a, d: a[0]), (r" as AsRef<Path>>::as_ref$", lambda ex, st, c, a, d: a[0]),
+                  (r"::for_path$", ev("for_path", fork=fk_for_path)), (r"::push_path$", ev("push_path", ret=lambda d, ra, n: sym.Unit())),
+                  (r"::with_format$", ev("with_format")), (r"::transform$", ev("transform", fork=fk_transform)),
+                  (r"^stdout$|::stdout$", ev("stdout")), (r" as std::io::Write>::write_all$", ev("write_all", fork=fk_write))] + BASE_MODELS
+        ex = sym.Executor(ctx, models=models, feasibility=C.feasibility(ctx), max_paths=2000)
+        ex.unroll = K + 2
+        paths = [p for p in ex.run(f_run, [me]) if p.status == "return"]
+        rec.paths += len(paths)
+        if len(paths) < 5:
+            _inconclusive(rec, "Args::run (%s --load-path) explores its outcomes" % ("with" if with_path else "without"))
+            continue
+        bad = []
+        for p in paths:
+            evs = [e for e in p.events if e.callee in ("for_path", "push_path", "with_format", "transform", "stdout", "write_all")]
+            rounds = sum(1 for e in p.events if e.callee == "next-some")
+            failed = [e for e in evs if e.result == "err"]
+            okp = True
+            why = ""
+            for r in range(rounds):
+                mine = [e for e in evs if e.round == r + 1]
+                seq = [e.callee for e in mine]
+                want = ["for_path"] + (["push_path"] if with_path else []) + ["with_format", "transform", "stdout", "write_all"]
+                if failed and failed[0] in mine:
+                    want = want[:seq.index(failed[0].callee) + 1] if failed[0].callee in seq else want
+                if seq != want:
+                    okp, why = False, "input %d: %s" % (r, ",".join(seq))
+                    break
+                by = {e.callee: e for e in mine}
+                fp = by["for_path"]
+                if fp.rargs[0] is not inputs[r]:
+                    okp, why = False, "input %d: for_path of another path" % r
+                    break
+                if fp.result == "err":
+                    continue
+                tup = fp.ret.fields["0"]
+                c0, s0 = tup.fields["0"], tup.fields["1"]
+                if with_path and not (by["push_path"].rargs[0] is c0 and by["push_path"].rargs[1] is lp):
+                    okp, why = False, "input %d: push_path(<its context>, <--load-path>)" % r
+                    break
+                wf = by["with_format"]
+                fmt = wf.rargs[1]
+                fmt_ok = isinstance(fmt, sym.Agg) and _full(ex, None, fmt.fields.get("style", fmt.fields.get("0"))) is thestyle and \
+                    getattr(_full(ex, None, fmt.fields.get("precision", fmt.fields.get("1"))), "term", None) == precision.term
+                if not (wf.rargs[0] is c0 and fmt_ok):
+                    okp, why = False, "input %d: with_format(<its context>, Format{<--style>, <--precision>})" % r
+                    break
+                tr = by.get("transform")
+                if tr is None or not (tr.rargs[0] is wf.ret and tr.rargs[1] is s0):
+                    okp, why = False, "input %d: transform(<that context>, <its source>)" % r
+                    break
+                if tr.result == "err":
+                    continue
+                wa = by.get("write_all")
+                if wa is None or not (wa.rargs[0] is by["stdout"].ret and wa.rargs[1] is tr.ret.fields["0"]):
+                    okp, why = False, "input %d: stdout gets exactly the bytes transform returned" % r
+                    break
+            if okp:
+                is_err = isinstance(p.ret, sym.Agg) and p.ret.variant == "Err"
+                if failed:
+                    # the failing step is the last library / output step of the run
+                    okp = is_err and evs[-1] is failed[0]
+                    why = "a failure does not end the run with an error"
+                else:
+                    okp = (not is_err) and any(e.callee == "next-none" for e in p.events)
+                    why = "no failure but no Ok"
+            if not okp:
+                bad.append(why)
+        rec.add("Args::run %s --load-path, up to %d inputs, every outcome of opening, compiling and writing: each input in order goes through for_path, %swith_format(Format{--style, --precision}), "
+                "transform, and exactly the bytes returned are written to stdout; the first failure ends the run with Err; otherwise Ok" % ("with" if with_path else "without", K, "push_path(--load-path), " if with_path else ""),
+                _structural(not bad, "; ".join(sorted(set(bad))[:5]) or "%d paths" % len(paths)))
+
+    # ---- From<StyleArg> for Style ---------------------------------------------------------------------------------------
+    f_from = C.find(name_re=r"^<impl at rsass-cli/src/main\.rs:.*>::from$")
+    sa = C.load_enum("main.rs", "StyleArg", "StyleArg")
+    lib_src = os.path.join(os.path.dirname(os.path.dirname(C.src)), "rsass", "src")
+    styles = None
+    for rel in ("output/format.rs", "output/style.rs", "output/mod.rs"):
+        if os.path.exists(os.path.join(lib_src, rel)) and re.search(r"enum Style\b", open(os.path.join(lib_src, rel)).read()):
+            saved, C.src = C.src, lib_src
+            try:
+                styles = C.load_enum(rel, "Style", "rsass::output::Style")
+            finally:
+                C.src = saved
+            break
+    if styles is None:
+        _inconclusive(rec, "the library's Style enum is found")
+    else:
+        bad = []
+        for v in sa:
+            ctx = C.ctx()
+            a = sym.Opaque("StyleArg", "style-arg", ctx)
+            ctx.assumptions.append("(= %s %s)" % (a.discriminant().term, bvlit(sa.index(v), 64)))
+            ex = sym.Executor(ctx, models=BASE_MODELS, feasibility=C.feasibility(ctx), max_paths=20)
+            ps = [p for p in ex.run(f_from, [a]) if p.status == "return"]
+            rec.paths += len(ps)
+            got = ps[0].ret.variant if len(ps) == 1 and isinstance(ps[0].ret, sym.Agg) else None
+            if got != v or v not in styles:
+                bad.append("%s -> %s" % (v, got))
+        rec.add("From<StyleArg> for Style: every --style value is the library style of the same name (%s)" % ", ".join(sa), _structural(not bad, "; ".join(bad)))
+
+    # ---- main -----------------------------------------------------------------------------------------------------------------
+    f_main = C.find(name="main")
+    ctx = C.ctx()
+    outs = []
+
+    def m_run(ex, st, c, a, d):
+        res = []
+        for kind, val in (("ok", sym.Agg(d, "Ok", {"0": sym.Unit()}, 0)), ("err", sym.Agg(d, "Err", {"0": sym.Opaque("Error", "the-error", ctx)}, 1))):
+            s2 = st.fork()
+            s2.events.append(sym.Event("run", a, kind, len(st.pc)))
+            res.append((s2, val))
+        return res
+
+    def m_eprint(ex, st, c, a, d):
+        e = sym.Event("eprint", a, None, len(st.pc))
+        e.rargs = [_full(ex, st, x) for x in a]
+        st.events.append(e)
+        return sym.Unit()
+
+    models = [(r"::run$", m_run), (r"^std::io::_eprint$", m_eprint), (r" as Parser>::parse$|::parse$", lambda ex, st, c, a, d: sym.Opaque("Args", "parsed-args", ctx))] + BASE_MODELS
+    ex = sym.Executor(ctx, models=models, feasibility=C.feasibility(ctx), max_paths=50)
+    try:
+        paths = [p for p in ex.run(f_main, []) if p.status == "return"]
+    except sym.Unsupported as e:
+        paths = []
+        rec.notes.append("main: %s" % e)
+    rec.paths += len(paths)
+    src_main = f_main.source()
+    if len(paths) != 2:
+        _inconclusive(rec, "main has one path per outcome of run")
+    else:
+        bad = []
+        for p in paths:
+            kind = [e for e in p.events if e.callee == "run"][0].result
+            printed = [e for e in p.events if e.callee == "eprint"]
+            r = p.ret
+            tag = getattr(r, "name", None) or getattr(r, "variant", None) or repr(r)
+            if kind == "ok":
+                okp = "SUCCESS" in str(tag) and not printed
+            else:
+                okp = "FAILURE" in str(tag) and len(printed) == 1
+            if not okp:
+                bad.append("run=%s -> exit %s, %d message(s)" % (kind, tag, len(printed)))
+        rec.add("main: Ok -> ExitCode::SUCCESS and nothing on stderr; Err -> one message on stderr and ExitCode::FAILURE", _structural(not bad, "; ".join(bad)))
+        tm = re.search(r'const b"((?:[^"\\]|\\.)*)";', src_main)
+        tpl = None
+        if tm:
+            raw = bytes(tm.group(1), "latin-1").decode("unicode_escape").encode("latin-1")
+            tpl, i = "", 0
+            while i < len(raw) and raw[i] != 0:          # n < 0x80: n literal bytes follow; 0xC0: the next argument
+                if raw[i] == 0xC0:
+                    tpl += "{}"
+                    i += 1
+                elif raw[i] < 0x80:
+                    tpl += raw[i + 1:i + 1 + raw[i]].decode("utf-8", "replace")
+                    i += 1 + raw[i]
+                else:
+                    tpl = None
+                    break
+        if tpl is None:
+            _inconclusive(rec, "main: the format template of the error message is readable")
+        else:
+            rec.add("main: the message written to stderr is `Error: ` followed by the error and a newline", _structural(tpl == "Error: {}\n" and "new_display::<rsass::Error>" in src_main, "template %r" % tpl))
+    return rec
